@@ -43,7 +43,8 @@ def h_fold(vm, mir, root_variant, depth, forces=()):
     gen = Gen(vm, mir, list_max=2)
     gen.force['root'] = root_variant
     for k, v in forces: gen.force[k] = v
-    gen.min_choices['LiteralExpression'] = lambda path: ['Number', 'String', 'Null'] if path.count('Expression.0') + path.count('.lhs') + path.count('.rhs') + path.count('.operand') <= 2 else ['Number']
+    # operands of the root (one level down) range over every literal kind the folders may meet; deeper leaves are numbers
+    gen.min_choices['LiteralExpression'] = lambda path: ['Number', 'String', 'Null', 'Boolean', 'Mysterious'] if path.count('Expression.0') + path.count('.lhs') + path.count('.rhs') + path.count('.operand') <= 4 else ['Number']
     adt, node = gen.gen('Expression', depth, 'root')
     vm.describe = lambda m: {'tree': node.describe()}
     out = []
